@@ -311,5 +311,33 @@ def run_c30(chk, F, tier):
                       "of them cancels the pending diagnosis of the others and their published sets stay stale"
                       % ("created outside the loop that inserts it" if created and all(isinstance(x, int) for x in created) else "not a fresh CancellationToken::new()"),
                       b.loc(c["l"]), sample={"rule": "R30c", "site": key, "verdict": "fresh token per insert"})
-    chk.floor("inserts into diagnostic_tokens", nins, 1)
+    # R30d: registrations are plain tokens: dropping or replacing a map entry has no side effect on the task it was made for
+    chk.rule("R30d", "FileDiagnostic.diagnostic_tokens stores plain CancellationTokens: a finished task removes whatever is registered under its file id "
+                     "(possibly a newer task's entry), which must not cancel anything")
+    fd = F.adts.get(LS + "::context::file_diagnostic::FileDiagnostic")
+    if fd is None:
+        raise RuleBroken("FileDiagnostic not found")
+    tok_ty = next((fd["_types"][f["ty"]][0] for f in fd["variants"][0]["fields"] if f["name"] == "diagnostic_tokens"), "")
+    plain = "CancellationToken" in tok_ty and "DropGuard" not in tok_ty
+    chk.check(plain, "R30d", "token-map-values",
+              "diagnostic_tokens is `%s`: its values cancel on drop, and the completion path of a task does `tokens.remove(&file_id)` for whatever entry is "
+              "there -- an older task that finishes late drops the newer task's guard and the newest content is never diagnosed" % tok_ty[:110],
+              "%s:%s" % (fd["file"], fd["line"]), sample={"rule": "R30d", "verdict": "plain CancellationToken values"})
+    if plain:
+        chk.floor("inserts into diagnostic_tokens", nins, 1)
+    # R30e: mass cancellation of per-file tasks
+    chk.rule("R30e", "FileDiagnostic::cancel_all (cancels every pending per-file task) is called only from audited places: the workspace pass that "
+                     "would replace those tasks visits main-workspace files only")
+    CANCEL_ALL_AUDITED = {}
+    ncall = 0
+    for b in ls_bodies:
+        for bb, c in b.calls():
+            if name(c).endswith("FileDiagnostic::cancel_all"):
+                ncall += 1
+                key = "cancel_all@%s" % b.id.replace(LS + "::", "")
+                chk.check(key in CANCEL_ALL_AUDITED, "R30e", key,
+                          "%s cancels every pending per-file diagnostic task: files that only per-file tasks ever diagnose (open files outside the main "
+                          "workspace, single-file mode) keep their stale published set" % b.id.split("::")[-2 if b.id.endswith("}") else -1], b.loc(c["l"]),
+                          sample={"rule": "R30e", "site": key, "verdict": CANCEL_ALL_AUDITED.get(key)})
+    chk.unit("callers of FileDiagnostic::cancel_all", ncall)
     chk.explanation = "Siblings cross-check: forward reachability from every removal call to the clear call (or to the caller that receives the removed uris)."
